@@ -12,5 +12,5 @@ INVARIANTS
   GatherIdentity GatherElementsVsScatter GatherNDFullIndexIsElement PadThenCrop PadModesOn1D
   ReduceAllIsFold ReduceAxisByAxis CumSumLastIsReduceSum ArgMaxVsTopK ElementwiseLaws
   GeneratorLaws DepthToSpaceLaws DispatcherDefaults
-  MatMulLaws ConvPoolLaws ResizeLaws MiscLaws EinsumLaws
+  MatMulLaws ConvPoolLaws ResizeLaws MiscLaws EinsumLaws SequenceLaws
 CHECK_DEADLOCK FALSE
